@@ -178,6 +178,16 @@ def check_attribute_kinds(t, shape, m):
                     got = outcome(mod.findall_by_attr, nodes[start], value, name=name)
                     judge(t, "%s.findall_by_attr(name=%r)" % (modname, name), ("ok", exp), got, idm, ctx)
                     t.c["attribute_kind_queries"] += 1
+    # an attribute NAME is just a name: dots in it are not a path
+    nodes = [anytree.AnyNode(**{"meta.id": i % 2, "id": "n%d" % i}) for i in range(m.n)]
+    for i in range(m.n):
+        if m.par[i] is not None:
+            nodes[i].parent = nodes[m.par[i]]
+    idm = tree.IdMap(nodes)
+    for name, value, exp in (("meta.id", 1, [v for v in m.pre(0) if v % 2 == 1]), ("parent.id", "n0", []), ("id.real", "n0", [])):
+        got = outcome(search.findall_by_attr, nodes[0], value, name=name)
+        judge(t, "search.findall_by_attr(name=%r)" % name, ("ok", exp), got, idm, {"shape": shape, "node_class": "AnyNode with dotted attribute names"})
+        t.c["attribute_kind_queries"] += 1
     # attributes forwarded by a SymlinkNode count as attributes of the link
     target = anytree.Node("tgt", tag="x")
     nodes = [anytree.Node("n%d" % i) for i in range(m.n)]
